@@ -821,6 +821,29 @@ pub fn gen_c05(o: &mut Out, tier: &str, seed: u64) {
             let s = bval_st(&mut r, n, a, 3, Some(ps));
             emit(o, &mut r, "bval.id-auditor", &format!("bval{}", n), &s.wit(), 2);
         }
+        // the zero Pedersen opening on a non-zero amount: commitment = amount*G, every handle the identity
+        {
+            let a = amount(&mut r).max(1);
+            let b = amount(&mut r).max(1);
+            let zero_open = |v: &mut Val| { v.r = Scalar::ZERO; v.c = Scalar::from(v.amt) * G; for d in v.ds.iter_mut() { *d = RistrettoPoint::identity(); } };
+            for n in [2usize, 3] {
+                let mut s = val_st(&mut r, n, a, None);
+                zero_open(&mut s);
+                emit(o, &mut r, "val.zero-opening", &format!("val{}", n), &s.wit(), 2);
+                let mut s = bval_st(&mut r, n, a, b, None);
+                zero_open(&mut s.lo); zero_open(&mut s.hi);
+                emit(o, &mut r, "bval.zero-opening", &format!("bval{}", n), &s.wit(), 2);
+                let mut s = bval_st(&mut r, n, a, b, None);
+                zero_open(&mut s.hi);
+                emit(o, &mut r, "bval.zero-opening-hi", &format!("bval{}", n), &s.wit(), 2);
+            }
+            let mut s = ctcmt_st(&mut r, a, a);
+            s.r = Scalar::ZERO; s.cm = Scalar::from(a) * G;
+            emit(o, &mut r, "ctcmt.zero-opening", "ctcmt", &s.wit(), 3);
+            let mut s = ctct_st(&mut r, a, a);
+            s.r = Scalar::ZERO; s.c2 = Scalar::from(a) * G; s.d2 = RistrettoPoint::identity();
+            emit(o, &mut r, "ctct.zero-opening", "ctct", &s.wit(), 3);
+        }
         // second ciphertext = identity for ct-ct equality (amount 0, opening 0)
         let mut z = ctct_st(&mut r, 0, 0);
         z.c2 = RistrettoPoint::identity();
